@@ -73,10 +73,13 @@ def run(ctx):
     lib.correspond(ctx, res, "h_heap", "assoc", assoc_lines(r, 3000 if q else 100000), assoc_holds, exe_args=[heapcheck.FONT0], per_chunk=500,
                    rule="assoc: Segment::associateChars on 1..9 characters and 0..9 slots with arbitrary in-range (also inverted and overlapping) before/after")
     heapcheck.end_to_end(ctx, res, pred_seg, 150 if q else 2500, 6 if q else 12, 10 if q else len(heapcheck.WORDS))
+    heapcheck.shape_stage(ctx, res, 120 if q else 3000, 6 if q else 12)
     return res.as_dict()
 
 
 def replay(ctx, obj):
+    if obj.get("mode") == "shape":
+        return heapcheck.replay_shape(obj)
     if obj.get("mode") == "e2e":
         return heapcheck.replay_e2e(obj, pred_seg)
 
